@@ -368,11 +368,31 @@ func (e *Engine) execTrans(s *State, ops []*VisOp, t Trans) {
 		return
 	}
 	gi := t.g
+	e.raceG = gi
 	op := ops[gi]
 	g := s.wg(gi)
 	fr := s.wtop(g)
 	if e.trace {
 		fmt.Fprintf(os.Stderr, "  T: %s arm=%d partner=%d\n", e.describeOp(s, gi, op), t.arm, t.partner)
+	}
+	if s.race != nil {
+		switch op.kind {
+		case vSend, vRecv, vClose:
+			e.raceBoth(s, gi, fmt.Sprintf("c%d", op.ch))
+			if t.partner >= 0 {
+				e.raceBoth(s, t.partner, fmt.Sprintf("c%d", op.ch))
+				e.raceAcquire(s, gi, fmt.Sprintf("c%d", op.ch))
+			}
+		case vSelect:
+			if t.arm < len(op.arms) {
+				k := fmt.Sprintf("c%d", op.arms[t.arm].ch)
+				e.raceBoth(s, gi, k)
+				if t.partner >= 0 {
+					e.raceBoth(s, t.partner, k)
+					e.raceAcquire(s, gi, k)
+				}
+			}
+		}
 	}
 	switch op.kind {
 	case vSend:
@@ -614,6 +634,7 @@ func (e *Engine) whereAmI(s *State, gi int) string {
 func (e *Engine) step(s *State, gi int) {
 	g := s.wg(gi)
 	fr := s.wtop(g)
+	e.raceG = gi
 	e.stats.Instrs++
 	s.steps++
 	if s.steps > e.maxSteps {
@@ -733,6 +754,7 @@ func (e *Engine) spawn(s *State, parent int, fv *FuncV, args []Value, harness bo
 	}
 	s.gs = append(s.gs, ng)
 	gi := len(s.gs) - 1
+	e.raceFork(s, parent, gi)
 	if fv.fn != nil && e.nativeFor(e.fnInfo(fv.fn)) == nil && fv.builtin == nil {
 		if fv.fn.Blocks == nil {
 			unsup("go of external function %s", fv.fn)
@@ -826,6 +848,14 @@ func (x *explorer) runPath(s *State) {
 				s.gs = append(s.gs, ng)
 				e.pushFrame(s, ng, e.fnInfo(cb.fn), nil, cb.env, retGo)
 				s.cur = len(s.gs) - 1
+				if s.race != nil {
+					// a quiescence callback observes the final state: ordered after everything
+					var all VC
+					for gi := range s.gs {
+						all = vcJoin(all, s.race.gvc[gi])
+					}
+					s.race.gvc[s.cur] = all
+				}
 				continue
 			}
 			return
